@@ -60,6 +60,14 @@ def sign_bounds(decimal):
     return sorted(set(out))
 
 
+def long_fraction_bounds():
+    out = []
+    for n in list(range(17, 21)) + list(range(254, 259)) + [265, 274] + list(range(510, 515)) + [530, 768, 769, 1025]:
+        for ip, d in (("0", "1"), ("-0", "5"), ("1", "0"), ("7", "3")):
+            out.append(ip + "." + "0" * (n - 1) + d)
+    return out
+
+
 def gen(tier, seed):
     rnd = random.Random(seed)
     cases = []
@@ -140,6 +148,13 @@ def gen(tier, seed):
             cases.append("parsedec %s %d" % (hexs(b), fd))
             for form in ("%s", "%s..8", "min..%s", "-1.5..0|%s"):
                 add(rng([(-P63, P63 - 1)], fd), form % b, 1, fd)
+    # decimal bounds with very many fractional digits (zeros, then one digit): the count must not wrap at 256
+    for b in long_fraction_bounds():
+        for fd in (1, 18) if len(b) > 100 else (1, 2, 9, 18):
+            cases.append("parsedec %s %d" % (hexs(b), fd))
+            for form in ("%s..8", "min..%s"):
+                add(rng([(-P63, P63 - 1)], fd), form % b, 1, fd)
+            add("-", "-1|%s" % b, 1, fd)
     # Number.Less / Equal on (x, -x) and (-x, x) at equal precision (Type.resolve skips a restriction that is Equal to its parent)
     for fd in (0, 1, 2, 9, 17, 18):
         for v in (0, 1, 5, 100, 127, 150, 10 ** fd, P63 - 1, P63, P64 - 1):
@@ -806,9 +821,24 @@ def fixed_scoped_union():
     return out
 
 
+def fixed_long_fraction():
+    out = []
+    for fd, whole in ((1, None), (2, "-100..100"), (18, "-5..5")):
+        for bi, b in enumerate(long_fraction_bounds()):
+            for form in (("%s", "%s..4")[bi % 2],):
+                nodes = [dict(name="whole", parent="decimal64", text=whole, leaf=False), dict(name="ok", parent="whole", text=None, leaf=True),
+                         dict(name="l", parent="whole", text=form % b, leaf=rnd_leaf(len(out)))]
+                out.append(dict(name="f_lf%d" % len(out), kind="decimal64", fd=fd, nodes=nodes))
+    return out
+
+
+def rnd_leaf(i):
+    return i % 3 != 0     # every third one as a typedef
+
+
 def run_modules(res, tier, seed):
     rnd = random.Random(seed * 7919 + 10)
-    mods = fixed_families() + fixed_symmetric() + fixed_signs() + fixed_scoped_union() + [gen_family(rnd, i) for i in range(700 if tier == "quick" else 12000)]
+    mods = fixed_families() + fixed_symmetric() + fixed_signs() + fixed_scoped_union() + fixed_long_fraction() + [gen_family(rnd, i) for i in range(700 if tier == "quick" else 12000)]
     for i in range(250 if tier == "quick" else 4000):
         mods += gen_symmetric(rnd, i)
     for i in range(200 if tier == "quick" else 3000):
